@@ -19,7 +19,7 @@ SParam expectedParam(const ParamSpec &sp) {
     return p;
 }
 struct L09 : Listener {
-    CaseResult &r; std::vector<SGroup> pre; size_t replaced = 0, multi = 0, setRefused = 0, created = 0, locks = 0, appended = 0, selfHanded = 0, dimQueries = 0;
+    CaseResult &r; std::vector<SGroup> pre; size_t replaced = 0, multi = 0, setRefused = 0, created = 0, locks = 0, appended = 0, selfHanded = 0, dimQueries = 0, reused = 0;
     explicit L09(CaseResult &rr) : r(rr) {}
     void before(Interp &in, const Op &, size_t) override { pre = takeSnap(in.o()).groups; }
     void fail(size_t i, const Op &op, const std::string &m) { r.fail("op " + std::to_string(i) + " (" + op.code + "): " + m); stop = true; }
@@ -41,6 +41,22 @@ struct L09 : Listener {
             ++replaced;
             std::string d = firstDiff(groupsText(want), groupsText(post));
             if (!d.empty()) fail(i, op, "a parameter re-set on a copy with the sign of its zeros flipped does not hold the new values: " + d);
+            return;
+        }
+        if (k == "preuse") {
+            // one Parameter object set several times (type and overload change) and handed over after each set: what the object holds in
+            // the end is what the LAST set asked for, in place of the earlier versions
+            if (o.threw) { fail(i, op, "a sequence of accepted set() calls on one Parameter object threw " + o.cls + ": " + o.what); return; }
+            if (in.lastReuse.empty()) return;
+            SParam ep = expectedParam(in.lastReuse.back());
+            std::vector<SGroup> post = takeSnap(in.o()).groups, want = pre;
+            SGroup *g = nullptr; for (auto &G : want) if (G.name == o.note) { g = &G; break; }
+            if (!g) { SGroup ng; ng.name = o.note; want.push_back(ng); g = &want.back(); ++created; }
+            bool rep = false; for (auto &P : g->params) if (P.name == ep.name) { P = ep; rep = true; break; }
+            if (rep) ++replaced; else { g->params.push_back(ep); ++appended; }
+            ++reused;
+            std::string d = firstDiff(groupsText(want), groupsText(post));
+            if (!d.empty()) fail(i, op, "after " + std::to_string(in.lastReuse.size()) + " successive set() calls on one Parameter object (handed over after each) the object does not hold what the last one asked for: " + d);
             return;
         }
         if (k == "dimq") {
@@ -128,12 +144,12 @@ struct L09 : Listener {
 
 CaseResult runC09(const Case &c, RunCtx &ctx) {
     CaseResult r;
-    Interp in(ctx);
+    Interp in(ctx, "C09");
     L09 L(r); in.L = &L;
     in.run(c);
     r.nontrivial = L.replaced || L.multi || L.setRefused;
     if (L.replaced) r.tags.insert("replace-in-place"); if (L.appended) r.tags.insert("append"); if (L.created) r.tags.insert("group-created");
-    if (L.selfHanded) r.tags.insert("own-parameter-handed-back"); if (L.dimQueries) r.tags.insert("dimension-rule-asked-directly"); if (L.multi) r.tags.insert("dims>=3"); if (L.setRefused) r.tags.insert("set-refused"); if (L.locks) r.tags.insert("lock-toggle");
+    if (L.selfHanded) r.tags.insert("own-parameter-handed-back"); if (L.dimQueries) r.tags.insert("dimension-rule-asked-directly"); if (L.reused) r.tags.insert("parameter-object-reused"); if (L.multi) r.tags.insert("dims>=3"); if (L.setRefused) r.tags.insert("set-refused"); if (L.locks) r.tags.insert("lock-toggle");
     r.counters["replaced"] = static_cast<long long>(L.replaced); r.counters["appended"] = static_cast<long long>(L.appended);
     r.counters["set_refused"] = static_cast<long long>(L.setRefused); r.counters["groups_created"] = static_cast<long long>(L.created);
     return r;
